@@ -7,6 +7,7 @@ import (
 	"fmt"
 	"io/ioutil"
 	"net/http"
+	"os"
 	"sort"
 	"strconv"
 	"sync"
@@ -291,6 +292,14 @@ func incrKey(r *protocol.IncrementalResponse) string {
 
 func clientvCmd(out *cq.Out, seed uint64, tier string) {
 	rng := cq.NewRng(seed)
+	var autoCases []string
+	defer func() {
+		f, _ := os.Create(out.Dir + "/cases.v")
+		fmt.Fprintf(f, "From Coq Require Import List NArith Bool.\nFrom QV Require Import Run.AutoRun.\nImport ListNotations.\nOpen Scope N_scope.\n")
+		fmt.Fprintf(f, "Definition cases : list auto_case := %s.\n", cq.List(autoCases))
+		fmt.Fprintf(f, "Definition R := Eval vm_compute in run_auto_cases cases.\nPrint R.\n")
+		f.Close()
+	}()
 	type logSpec struct {
 		n      int
 		forkAt int
@@ -472,6 +481,24 @@ func clientvCmd(out *cq.Out, seed uint64, tier string) {
 				}
 				if ok {
 					out.Count("membership_auto_accepted", 1)
+				}
+				// the control logic of MembershipAutoVerify against Balloon/AutoVerify.v: which snapshots, which versions
+				srv.mu.Lock()
+				m := srv.lastMemb
+				srv.mu.Unlock()
+				if class == "ok" && m != nil {
+					hasq, hascur := m.QueryVersion < uint64(sp.n), m.CurrentVersion < uint64(sp.n)
+					dv := false
+					if hasq && (m.CurrentVersion == m.ActualVersion || hascur) {
+						hy := lg.snaps[m.QueryVersion].HyperDigest
+						if m.CurrentVersion != m.ActualVersion {
+							hy = lg.snaps[m.CurrentVersion].HyperDigest
+						}
+						guarded(func() {
+							dv = protocol.ToBalloonProof(m, hashing.NewSha256Hasher).DigestVerify(d, &balloon.Snapshot{EventDigest: d, HistoryDigest: lg.snaps[m.QueryVersion].HistoryDigest, HyperDigest: hy})
+						})
+					}
+					autoCases = append(autoCases, fmt.Sprintf("(Some %s, (%s, %s, %s), (%s, %s), %s, %s)", cq.N(v), cq.N(m.QueryVersion), cq.N(m.CurrentVersion), cq.N(m.ActualVersion), cq.Bool(hasq), cq.Bool(hascur), cq.Bool(dv), cq.Bool(ok)))
 				}
 				// --- MembershipDigest + MembershipVerify with the caller's own snapshots
 				var proof *balloon.MembershipProof
